@@ -75,6 +75,11 @@ CLAIMED["C15"] = ("predicated path enumeration of counter events per outcome (E4
          "go/ssa model; sync/atomic types are self-synchronising; Target.client exempt by the SetClient-before-updates contract (C01.wire); loops unrolled",
          "DESIGN.md §3 C15")
 
+CLAIMED["C12"] = ("panic-site audit (E6): path-sensitive guard facts (length, non-nil, dynamic type, index bound) from branch decisions, stores and constructor summaries; predicate-helper summaries; call-site preconditions propagated to a fixpoint; reachability from the remote-input entry points incl. closures and goroutines",
+         "Static, all-paths over ~160 functions reachable from the remote-input entry points: every slice/string index, constant slicing, unchecked type assertion, dereference of a pointer that may be nil by provenance and explicit panic is guarded on every path, safe by construction or covered by a precondition established at every call site; stored notifications always carry an update (tree invariant); rejected updates never write. The audit found 20 unguarded sites on the pinned tree (all reproduced as crashes, now repaired by fix commits) and passes on the repaired tree; any new unguarded site is a violation. Panics in third-party code, resource exhaustion, non-constant slice bounds, typed-nil interfaces and races are NOT covered.",
+         "go/ssa model; wire-format assumptions (repeated elements and set oneof payloads non-nil); generated getters nil-safe; expression identity by normalised printing (a location is assumed unchanged between guard and use unless a store to it is seen on the path)",
+         "DESIGN.md §3 C12")
+
 NA_REASON = {}
 DEFAULT_NA = "check not built yet in this round (static rules designed in DESIGN.md section 3); not claimed until the rule runs"
 
